@@ -422,6 +422,7 @@ func checkC15(p *Prog, res *Result, tier string) {
 	res.rule("C15-R2", "the lock's timestamp field is fed only by GetTimestampOracle and is what Describe() prints", 4)
 	res.rule("C15-R3", "TSO.Commit raises the dealt counter monotonically (C02-R1)", 5)
 	res.rule("C15-R4", "nobody else resets the counters (C02-R3)", 3)
+	res.rule("C15-R6", "the TiKV adapter's oracle asks PD for a fresh timestamp, never a cached one (C11-R6)", 1)
 	res.rule("C15-R5", "a failed read of the engine timestamp fails the lock operation (its error is returned), so that the lock never reports success with a stale or zero timestamp cached", 2)
 
 	// ---- R1 ----
@@ -503,6 +504,15 @@ func checkC15(p *Prog, res *Result, tier string) {
 				}
 				return "", false
 			}, "the new leader would seed its revision counters from a timestamp that was never read (0 or stale) and hand out revisions the old leader already used")
+	}
+
+	// ---- R6: the engine's oracle is fresh (C11-R6) ----
+	{
+		sub := newResult("C11")
+		checkOracleAPI(p, r, sub)
+		for _, o := range sub.Obls {
+			res.add("C15-R6", o.Rule+" "+o.Construct, o.Status, o.Pos, o.Detail)
+		}
 	}
 
 }
